@@ -156,6 +156,9 @@ var spinKinds = []string{
 	"for_generator", "for_channel_fed",
 	"tail_method", "tail_method_return", "tail_method_if", "tail_mutual", "tail_instance", "tail_module",
 	"times_huge", "every_endless", "any_endless",
+	// every iteration leaves the body through a `continue` that crosses a finally clause (the jump goes
+	// through JUMP_TO_FINALLY and skips whatever stands at the end of the loop body)
+	"loop_continue_finally", "while_continue_finally", "until_continue_finally", "for_continue_finally_labelled",
 }
 
 var parkKinds = []string{
@@ -199,7 +202,23 @@ func (g *gen) spin(sc scope, depth int) []string {
 	x, t, f := sc.x, sc.t, sc.f
 	body := func() []string { return g.loopBody(sc, depth-1) }
 	simple := x + " += 1"
+	contFin := func(label string) []string {
+		c := "continue"
+		if label != "" {
+			c = "continue[" + label + "]"
+		}
+		return []string{"do", "  " + x + " += 1", "  " + c, "finally", "  " + x + " += 2", "end"}
+	}
 	switch kind {
+	case "loop_continue_finally":
+		return block("loop", contFin(""), "end")
+	case "while_continue_finally":
+		return block("while "+t, contFin(""), "end")
+	case "until_continue_finally":
+		return block("until "+x+" < 0", contFin(""), "end")
+	case "for_continue_finally_labelled":
+		i, j, l := g.name("i"), g.name("j"), g.name("outer")
+		return block("$"+l+": for "+i+" in 1...", block("for "+j+" in 1...3", contFin(l), "end"), "end")
 	case "loop":
 		return block("loop", body(), "end")
 	case "while_true":
